@@ -327,6 +327,20 @@ def allowedIterationSites : List (String × String × String) :=
 theorem analysis_has_no_nondeterminism_source :
     BlugeGen.C18.nondeterminismSites.all (fun s => allowedIterationSites.contains s) = true := by decide
 
+/-- reviewed list of writes that may reach the receiver of a Tokenize / Filter / Analyze method: none. Every
+component of the analysis packages builds its working state (rings, maps, parsers, buffers) per call. -/
+def allowedReceiverWrites : List (String × String × String) := []
+
+/-- "gives the same tokens every time", the part no sequential run can see: analyzers are STATELESS across
+calls. `BlugeGen.C18.receiverWrites` (go/extract/c18state.go) lists every assignment, inc/dec, `delete`/`copy`
+and known mutating call that reaches the receiver of a Tokenize / Filter / Analyze method, directly
+(`s.x = …`, `s.buf[i] = …`), through a local alias (`r := s.ring; r.Value = …`) or through a package function the
+receiver state is passed to. A component that keeps state between calls (and therefore is neither re-entrant
+nor safe under the 4 analysis workers of `Writer.Batch`) fails this obligation. -/
+theorem filters_do_not_mutate_receiver :
+    BlugeGen.C18.receiverWrites.all (fun s => allowedReceiverWrites.contains s) = true ∧
+    50 ≤ BlugeGen.C18.statefulEntryPoints := by decide
+
 /-- index time (`TermField.Analyze`) and query time (`MatchQuery.Searcher`) both go through the analyzer's
 `Analyze` method -/
 theorem index_and_query_call_analyze :
